@@ -1,0 +1,90 @@
+//go:build verif
+
+// Verification hooks (compiled only with -tags verif). Add-only: thin exported
+// wrappers that let an external harness drive unexported components one
+// operation at a time. Nothing here is referenced by the library itself.
+
+package codec
+
+import "io"
+
+// VerifWriteOp is one encWriterI operation.
+// Kind: 0 writeb, 1 writestr, 2 writeqstr, 3 writen1, 4 writen2, 5 writen4, 6 writen8.
+type VerifWriteOp struct {
+	Kind int
+	Data []byte
+}
+
+// VerifBufioRun resets a bufioEncWriter on w with the given buffer size, applies
+// ops in order, then calls end(). A panic raised by halt (how the writer reports
+// faults) stops the run and is returned. bufcap is len(z.buf) after resetIO.
+func VerifBufioRun(w io.Writer, bufsize int, ops []VerifWriteOp) (bufcap int, err error) {
+	var z bufioEncWriter
+	var blist bytesFreeList
+	z.resetIO(w, bufsize, &blist)
+	bufcap = len(z.buf)
+	defer func() {
+		if r := recover(); r != nil {
+			if e, ok := r.(error); ok {
+				err = e
+			} else {
+				panic(r)
+			}
+		}
+	}()
+	for _, o := range ops {
+		switch o.Kind {
+		case 0:
+			z.writeb(o.Data)
+		case 1:
+			z.writestr(string(o.Data))
+		case 2:
+			z.writeqstr(string(o.Data))
+		case 3:
+			z.writen1(o.Data[0])
+		case 4:
+			z.writen2(o.Data[0], o.Data[1])
+		case 5:
+			var b [4]byte
+			copy(b[:], o.Data)
+			z.writen4(b)
+		case 6:
+			var b [8]byte
+			copy(b[:], o.Data)
+			z.writen8(b)
+		}
+	}
+	z.end()
+	return
+}
+
+// VerifAppenderRun applies the same operations to a bytesEncAppender and
+// returns the resulting []byte.
+func VerifAppenderRun(ops []VerifWriteOp) (out []byte) {
+	var z bytesEncAppender
+	z.resetBytes(make([]byte, 0, 8), &out)
+	for _, o := range ops {
+		switch o.Kind {
+		case 0:
+			z.writeb(o.Data)
+		case 1:
+			z.writestr(string(o.Data))
+		case 2:
+			z.writeqstr(string(o.Data))
+		case 3:
+			z.writen1(o.Data[0])
+		case 4:
+			z.writen2(o.Data[0], o.Data[1])
+		case 5:
+			var b [4]byte
+			copy(b[:], o.Data)
+			z.writen4(b)
+		case 6:
+			var b [8]byte
+			copy(b[:], o.Data)
+			z.writen8(b)
+		}
+	}
+	z.end()
+	return
+}
